@@ -483,7 +483,7 @@ def main(check, argv=None):
 
         # ---- replay tier ---------------------------------------------------------------------------
         rdir = os.path.join(VERIF_ROOT, "replays", pid)
-        if os.path.isdir(rdir):
+        if os.path.isdir(rdir) and not os.environ.get("VERIF_NO_REPLAYS"):  # (the audit may switch the replay tier off)
             for name in sorted(os.listdir(rdir)):
                 if not name.endswith(".json"):
                     continue
